@@ -81,7 +81,12 @@ def read_ops(ps, src, keys, n, watch=False):
             ps.iters.append(f)
             ps.add(op="iterator", s=src, f=f)
         elif r < 0.9:
-            ps.add(op="all", s=src)
+            if src["kind"] == "txn" and rng.random() < 0.6:
+                # iterate the transaction while the loop body writes to it
+                ps.add(op="allw", x=src["id"], at=rng.randint(1, 3), kind=rng.choice(["insert", "delete"]),
+                       k=rng.choice(keys), v=rng.randint(1, 9))
+            else:
+                ps.add(op="all", s=src)
         else:
             ps.add(op="len", s=src)
 
